@@ -230,6 +230,9 @@ theorem close_integers_distinct_codes (a b : Nat) (ha : a < 2^64) (hb : b < 2^64
   rw [h, (gray_roundtrip b hb).2] at e
   exact e.symm
 
+/-- non-vacuity of `close_integers_distinct_codes`: two carrier-like values a relative 1e-5 apart -/
+example : (2400000000 : Nat) < 2^64 ∧ (2400020000 : Nat) < 2^64 ∧ (2400000000 : Nat) ≠ 2400020000 := by decide
+
 open PyPhysim.C15R PyPhysim.C01 in
 /-- `setPhaseOffset φ` takes effect for EVERY value: the table afterwards is the natural
     constellation at `φ` itself, whatever the offset was before … -/
